@@ -48,8 +48,29 @@ def build(tier):
                           native=dict(native("FN_b_unconstrain", "void", "BOX_T*, uint64_t", "x, v", dx, dx), pre=re.sub(r'__CPROVER_assume\((.*)\);', r'PRE(status_words, \1)', setup(dx, dx)) + "\n  BOX_T *x = &G_bx, *y = &G_by;\n  PRE(variable_outside_the_box, v >= %d && v < ((uint64_t)1 << 40))" % dx), **kw))
     return units, T
 
+BDS_OPS = ["intersection", "contains", "strictly_contains", "is_disjoint_from"]     # (difference_assign / time_elapse_assign go through constraints and polyhedra: GMP; upper_bound_assign exhausts 40 GB, as in check C03)
+def bds_tasks(tier):
+    """BD_Shape<int8_t>: dimension-incompatible calls (x of matrix order N, y of order N - 1)"""
+    from C11 import TYPES
+    cxx, w, sg = TYPES["s8"]
+    u = Unit("C14", "bds_s8", "units/C03/bds.cc", defs={"VT": cxx, "T_W": w, "T_SIGNED": sg},
+             roots="re:^(w_(%s)$|ST_|ENC_|POL_)" % "|".join(BDS_OPS), cut=["re:BD_Shape<.*>::throw_", "re:Bit_Matrix::", "re:operator==\\(.*Bit_Matrix"], stubs=["common.c", "c03.c"],
+             aliases={"FN_bds_throw_dim": r"BD_Shape<.*>::throw_dimension_incompatible\(char const\*, Parma_Polyhedra_Library::BD_Shape<.*> const&\) const$"})
+    T = []
+    for n in (2,):
+        pre = C03.setup(True).replace("  __CPROVER_assume(shape_wf(&G_X) && shape_wf(&G_Y) && pt_ok());\n", "").replace("  G_satX0 = sat(&G_X.s); G_satY0 = sat(&G_Y.s);", "")
+        pre += ("\n  G_Y.s.f0.f0.f0.f0.f0.f1 = G_Y.rows + N - 1; G_Y.s.f0.f0.f0.f0.f0.f2 = G_Y.rows + N - 1; G_Y.s.f0.f1 = N - 1; G_Y.s.f0.f2 = N - 1;"
+                "\n  for (int i = 0; i < N; i++) G_Y.blk[i].size = N - 1;\n  __CPROVER_assume(FLAGS(&G_X.s) <= 7u && FLAGS(&G_Y.s) <= 7u);\n  G_X_entry = G_X; G_Y_entry = G_Y;")
+        kw = dict(bounded={"unwind": n + 2, "note": "x of space dimension %d, y of dimension %d; matrix contents and status flags arbitrary" % (n - 1, n - 2)}, timeout=900, object_bits=9,
+                  defs={"N": n, "PT_RANGE": "((int64_t)512)"}, harness_pre=pre, group="bd shape s8", nothrow=False, no_return=True, mem_gb=40)
+        for op in BDS_OPS:
+            call = ("FN_%s(&G_X.s, &G_Y.s)" if op in ("intersection",) else "_Bool r = FN_%s(&G_X.s, &G_Y.s)") % op
+            T.append(Task("bds/s8/%s/order%d-%d" % (op, n, n - 1), u, "FN_" + op, ["C14/bds_reject.h"], [], call, **kw))
+    return [u], T
+
 def main(tier, only=None):
     units, tasks = build(tier)
+    bu, bt = bds_tasks(tier); units += bu; tasks += bt
     if only: tasks = [t for t in tasks if only in t.id]; units = [u for u in units if any(t.unit is u for t in tasks)]
     return run_check("C14", tier, tasks, units, "other",
                      trusted_base=["clang 14 front end + LLVM mem2reg", "tools/ll2c.py (IR -> C)", "CBMC 6.11 / cadical", "stubs/common.c", "stubs/c03_box.c",
